@@ -120,6 +120,9 @@ pub fn catch<R>(f: impl FnOnce() -> R) -> Result<R, String> {
 }
 
 pub fn quiet_panics() {
+    if std::env::var("LV_VERBOSE").is_ok() {
+        return;
+    }
     std::panic::set_hook(Box::new(|_| {}));
 }
 
